@@ -172,6 +172,8 @@ def concretise(text, rng, style=None):
                 if cls == "FIN":
                     x = cell_value(cell["id"]) * (-1.0 if style.get("neg") else 1.0)
                     toks.append(pick(FIN_SPELL, cell["id"])(x))
+                elif cls == "ZERO":
+                    toks.append(pick(["0", "0.0", "0.000", "-0.0", "0E0", "+0", "00"], cell["id"]))
                 elif cls == "NULLEQ":
                     toks.append(pick(null_spell, cell["id"]))
                 elif cls == "NEAR":
@@ -211,6 +213,8 @@ def project_cell(x):
             return -2
         if x in _NULLV[1]:
             return -3
+        if x == 0:
+            return -4
         y = abs(x) - 0.25          # (the "neg" style writes every value with a minus sign: a hyphen on every line)
         if y == int(y) and 100 <= y < 1000000 and 1 <= int(y) % 100 <= 99:
             return int(y)
